@@ -674,3 +674,16 @@ func (vc *VC) mapLenFacts(st *State, m Term, kt types.Type) Term {
 		fmt.Sprintf("(forall ((k!q %s)) (! (=> (select %s k!q) (> %s 0)) :pattern ((select %s k!q))))", ks, d, l, d),
 		tImp(tLt("0", l), fmt.Sprintf("(exists ((k!q %s)) (select %s k!q))", ks, d)))
 }
+
+// elemOff is the slot offset of element idx of a sequence starting at off with
+// elements of es slots.  It is an uninterpreted function with a defining axiom
+// so that quantified facts about elements can be matched syntactically.
+func (vc *VC) elemOff(off, idx Term, es int) Term {
+	name := fmt.Sprintf("eo%d", es)
+	if !vc.uf[name] {
+		vc.uf[name] = true
+		vc.decls = append(vc.decls, fmt.Sprintf("(declare-fun %s (Int Int) Int)", name))
+		vc.decls = append(vc.decls, fmt.Sprintf("(assert (forall ((o!q Int) (i!q Int)) (! (= (%s o!q i!q) (+ o!q (* %d i!q))) :pattern ((%s o!q i!q)))))", name, es, name))
+	}
+	return sx(name, off, idx)
+}
